@@ -21,6 +21,8 @@ import Proofs.C04Gauss
 import Proofs.C04Mills
 import Proofs.C04Jacobi
 import Proofs.C04Symm
+import Proofs.C04Compose
+import Properties.C02
 
 namespace C04
 open Kernels
@@ -726,6 +728,229 @@ theorem loglik_grad_hyp_of_posDef {n p : ℕ} {K : Matrix (Fin n) (Fin n) ℝ} (
   gls_hyp_of_posDef hK P hP
 
 end LogLikMatrix
+
+/-! ## 9. Composition: the concrete kernel family -/
+
+section Compose
+open scoped Matrix
+
+/-  Sections 1 and 8 composed with C02 / C03, for every radial kernel of the library, every number n of observed
+    points, every dimension d.
+
+    `radialNoisy k alpha l x ν`  (Proofs/C04Compose.lean) is the matrix `K(X,X) + diag ν` over `Fin n`:
+        entry (i, j) = `kernel k alpha l (x i) (x j) + (if i = j then ν i else 0)`;
+    `radialHparamGrad k alpha l x h` is the matrix of the entries `h` of the model's hyperparameter-gradient rows
+        `gradKernelH k alpha l (x i) (x j)`  (h = 0: process variance; h = c + 1: length scale c).
+    `kernel_matrix_model_eq` ties both to the list model: they are `gramNoise` (= `build_kernel_matrix` with noise) and
+    slice h of `hparamTensor` (= `build_kernel_hparam_grad_tensor`).
+
+    One hyperparameter moves, the others are fixed:
+      * process variance   t ↦ radialNoisy k t l x ν                         K' = radialHparamGrad k θ l x 0
+      * length scale c     t ↦ radialNoisy k alpha (update l c t) x ν        K' = radialHparamGrad k alpha (update l c θ) x (c+1)
+      * nugget             t ↦ radialNoisy k alpha l x (ν + t) = K + t·I      K' = 1
+    For each: `hK` (entry-wise derivative of the WHOLE matrix, `kernel_matrix_grad_*`), positive definiteness of the
+    matrix at θ (`kernel_matrix_posDef`, from C03 `radial_gram_posSemidef` through C02
+    `radial_noisy_posDef_of_noise_pos`), hence `0 < det`, symmetry and `det PᵀK⁻¹P ≠ 0` (`kernel_matrix_hyp`), hence the
+    log-likelihood gradient statements `loglik_grad_radial_*` with NO hypothesis left except the parameter ranges
+    (process variance ≥ 0, moving length scale ≠ 0, noise > 0) and full column rank of `P`. -/
+
+/-- **the two matrices are the list model's**: `build_kernel_matrix(X, noise_variance = ν)` has the entries of
+    `radialNoisy`, and slice `h` of `build_kernel_hparam_grad_tensor(X)` is `radialHparamGrad … h` written as a list of
+    rows (the form `loglikGrad` consumes in `loglik_grad_zero_mean`). -/
+theorem kernel_matrix_model_eq (k : Kind) {n d : ℕ} (alpha : ℝ) (l : Fin d → ℝ) (x : Fin n → Fin d → ℝ)
+    (ν : Fin n → ℝ) (h : ℕ) :
+    (∀ i j : Fin n,
+      C03.entry (gramNoise k alpha (List.ofFn l) (List.ofFn fun i => List.ofFn (x i)) (List.ofFn ν)) i j
+        = some (radialNoisy k alpha l x ν i j)) ∧
+    (hparamTensor k alpha (List.ofFn l) (List.ofFn fun i => List.ofFn (x i))).map
+        (fun row => row.map fun g => g.getD h 0)
+      = ofFnM (radialHparamGrad k alpha l x h) := by
+  constructor
+  · intro i j
+    rw [C03.gramNoise_eq_matrix, radialNoisy_eq_noisy]
+    rfl
+  · rw [(hparam_entrypoints_agree k alpha (List.ofFn l) (List.ofFn fun i => List.ofFn (x i)) [] (by simp)).2.1]
+    simp only [List.map_ofFn, ofFnM]
+    congr 1
+    funext i
+    simp only [Function.comp_apply, List.map_ofFn]
+    rfl
+
+/-- **positive definite**: `K(X,X) + diag ν` for `alpha ≥ 0`, `ν > 0`, whatever the points and length scales -/
+theorem kernel_matrix_posDef (k : Kind) {n d : ℕ} {alpha : ℝ} (ha : 0 ≤ alpha) (l : Fin d → ℝ)
+    (x : Fin n → Fin d → ℝ) {ν : Fin n → ℝ} (hν : ∀ i, 0 < ν i) : (radialNoisy k alpha l x ν).PosDef := by
+  rw [radialNoisy_eq_noisy]
+  exact C02.radial_noisy_posDef_of_noise_pos k ha l x hν
+
+/-- … hence every hypothesis of section 8 -/
+theorem kernel_matrix_hyp (k : Kind) {n d p : ℕ} {alpha : ℝ} (ha : 0 ≤ alpha) (l : Fin d → ℝ)
+    (x : Fin n → Fin d → ℝ) {ν : Fin n → ℝ} (hν : ∀ i, 0 < ν i) (P : Matrix (Fin n) (Fin p) ℝ)
+    (hP : Function.Injective P.mulVec) :
+    0 < (radialNoisy k alpha l x ν).det ∧ (radialNoisy k alpha l x ν).IsSymm ∧
+      (Pᵀ * (radialNoisy k alpha l x ν)⁻¹ * P).det ≠ 0 :=
+  loglik_grad_hyp_of_posDef (kernel_matrix_posDef k ha l x hν) P hP
+
+/-- **whole matrix, process variance**: slice 0 of the hyperparameter-gradient tensor is the entry-wise derivative of
+    `alpha ↦ K + diag ν` (every kernel kind, C0 included: the entry is linear in alpha) -/
+theorem kernel_matrix_grad_alpha (k : Kind) {n d : ℕ} (l : Fin d → ℝ) (x : Fin n → Fin d → ℝ) (ν : Fin n → ℝ)
+    (θ : ℝ) (i j : Fin n) :
+    HasDerivAt (fun t => radialNoisy k t l x ν i j) (radialHparamGrad k θ l x 0 i j) θ :=
+  radialNoisy_alpha_hasDerivAt k l x ν θ i j
+
+/-- **whole matrix, length scale c**: slice c + 1 of the tensor is the entry-wise derivative of `l c ↦ K + diag ν` -/
+theorem kernel_matrix_grad_length (k : Kind) (hk : differentiable k = true) {n d : ℕ} (alpha : ℝ) (l : Fin d → ℝ)
+    (x : Fin n → Fin d → ℝ) (ν : Fin n → ℝ) (c : Fin d) {θ : ℝ} (hθ : θ ≠ 0) (i j : Fin n) :
+    HasDerivAt (fun t => radialNoisy k alpha (Function.update l c t) x ν i j)
+      (radialHparamGrad k alpha (Function.update l c θ) x (c.val + 1) i j) θ :=
+  radialNoisy_length_hasDerivAt k hk alpha l x ν c θ hθ i j
+
+/-- **whole matrix, nugget**: `t ↦ K + diag ν + t·I` has entry-wise derivative `I` -/
+theorem kernel_matrix_grad_nugget (k : Kind) {n d : ℕ} (alpha : ℝ) (l : Fin d → ℝ) (x : Fin n → Fin d → ℝ)
+    (ν : Fin n → ℝ) (θ : ℝ) :
+    (∀ t, radialNoisy k alpha l x (fun a => ν a + t)
+      = radialNoisy k alpha l x ν + t • (1 : Matrix (Fin n) (Fin n) ℝ)) ∧
+    ∀ i j : Fin n, HasDerivAt (fun t => radialNoisy k alpha l x (fun a => ν a + t) i j)
+      ((1 : Matrix (Fin n) (Fin n) ℝ) i j) θ :=
+  ⟨radialNoisy_nugget_eq k alpha l x ν, radialNoisy_nugget_hasDerivAt k alpha l x ν θ⟩
+
+/-- **loglik_grad_radial_alpha, zero mean**: for the concrete kernel matrix `K(alpha) = K(X,X) + diag ν`,
+    `−s(rᵀK⁻¹r + log det K)` has derivative `−s(−aᵀ K' a + tr(K⁻¹ K'))` in the process variance, `K'` slice 0 of the
+    hyperparameter-gradient tensor, at every `θ ≥ 0` (so at every legal process variance `θ > 0`). -/
+theorem loglik_grad_radial_alpha (k : Kind) {n d : ℕ} (l : Fin d → ℝ) (x : Fin n → Fin d → ℝ) {ν : Fin n → ℝ}
+    (hν : ∀ i, 0 < ν i) {θ : ℝ} (hθ : 0 ≤ θ) (s : ℝ) (r : Fin n → ℝ) :
+    HasDerivAt
+      (fun t => -s * (r ⬝ᵥ ((radialNoisy k t l x ν)⁻¹ *ᵥ r) + Real.log (radialNoisy k t l x ν).det))
+      (-s * (-(((radialNoisy k θ l x ν)⁻¹ *ᵥ r) ⬝ᵥ
+            (radialHparamGrad k θ l x 0 *ᵥ ((radialNoisy k θ l x ν)⁻¹ *ᵥ r)))
+        + Matrix.trace ((radialNoisy k θ l x ν)⁻¹ * radialHparamGrad k θ l x 0))) θ :=
+  have hpd := kernel_matrix_posDef k hθ l x hν
+  loglik_grad_matrix (K := fun t => radialNoisy k t l x ν) (kernel_matrix_grad_alpha k l x ν θ)
+    hpd.det_pos (isSymm_of_posDef hpd) s r
+
+/-- **loglik_grad_radial_alpha, polynomial (GLS) mean**, `P` of full column rank -/
+theorem loglik_grad_radial_alpha_poly_mean (k : Kind) {n d p : ℕ} (l : Fin d → ℝ) (x : Fin n → Fin d → ℝ)
+    {ν : Fin n → ℝ} (hν : ∀ i, 0 < ν i) {θ : ℝ} (hθ : 0 ≤ θ) (P : Matrix (Fin n) (Fin p) ℝ)
+    (hP : Function.Injective P.mulVec) (s : ℝ) (y : Fin n → ℝ) :
+    HasDerivAt
+      (fun t => -s * (glsResidual P (radialNoisy k t l x ν) y ⬝ᵥ
+          ((radialNoisy k t l x ν)⁻¹ *ᵥ glsResidual P (radialNoisy k t l x ν) y)
+        + Real.log (radialNoisy k t l x ν).det))
+      (-s * (-(((radialNoisy k θ l x ν)⁻¹ *ᵥ glsResidual P (radialNoisy k θ l x ν) y) ⬝ᵥ
+            (radialHparamGrad k θ l x 0 *ᵥ ((radialNoisy k θ l x ν)⁻¹ *ᵥ glsResidual P (radialNoisy k θ l x ν) y)))
+        + Matrix.trace ((radialNoisy k θ l x ν)⁻¹ * radialHparamGrad k θ l x 0))) θ :=
+  have h := kernel_matrix_hyp k hθ l x hν P hP
+  loglik_grad_poly_mean_matrix (K := fun t => radialNoisy k t l x ν) (kernel_matrix_grad_alpha k l x ν θ)
+    h.1 h.2.1 P h.2.2 s y
+
+/-- non-vacuity of `loglik_grad_radial_alpha`: square-exponential kernel, length scale 1, points 0 and 1 on the line,
+    noise 1/10: `K(t) = [[t + 1/10, t e^{-1/2}], [t e^{-1/2}, t + 1/10]]`, `K' = [[1, e^{-1/2}], [e^{-1/2}, 1]]`, at θ = 2 -/
+example (s : ℝ) (r : Fin 2 → ℝ) :
+    let K : ℝ → Matrix (Fin 2) (Fin 2) ℝ := fun t =>
+      !![t + 1 / 10, t * Real.exp (-(1 / 2)); t * Real.exp (-(1 / 2)), t + 1 / 10]
+    let K' : Matrix (Fin 2) (Fin 2) ℝ := !![1, Real.exp (-(1 / 2)); Real.exp (-(1 / 2)), 1]
+    HasDerivAt (fun t => -s * (r ⬝ᵥ ((K t)⁻¹ *ᵥ r) + Real.log (K t).det))
+      (-s * (-(((K 2)⁻¹ *ᵥ r) ⬝ᵥ (K' *ᵥ ((K 2)⁻¹ *ᵥ r))) + Matrix.trace ((K 2)⁻¹ * K'))) 2 := by
+  intro K K'
+  have hK : ∀ t, radialNoisy Kind.se t ![(1 : ℝ)] ![![0], ![1]] (fun _ => 1 / 10) = K t := by
+    intro t
+    ext i j
+    fin_cases i <;> fin_cases j <;> simp [K, radialNoisy, kernel, phi, r2, two]
+  have hK' : radialHparamGrad Kind.se 2 ![(1 : ℝ)] ![![0], ![1]] 0 = K' := by
+    ext i j
+    fin_cases i <;> fin_cases j <;> simp [K', radialHparamGrad, gradKernelH, hparamRowWith, phi, r2, two]
+  have h := loglik_grad_radial_alpha Kind.se ![(1 : ℝ)] ![![0], ![1]] (ν := fun _ => 1 / 10)
+    (fun _ => by norm_num) (θ := 2) (by norm_num) s r
+  simpa only [hK, hK'] using h
+
+/-- **loglik_grad_radial_length, zero mean**: the same for length scale `c` moving (`Function.update l c t`), `K'`
+    slice `c + 1` of the hyperparameter-gradient tensor, at every `θ ≠ 0` (so at every legal length scale `θ > 0`),
+    process variance `alpha ≥ 0`. -/
+theorem loglik_grad_radial_length (k : Kind) (hk : differentiable k = true) {n d : ℕ} {alpha : ℝ} (ha : 0 ≤ alpha)
+    (l : Fin d → ℝ) (x : Fin n → Fin d → ℝ) {ν : Fin n → ℝ} (hν : ∀ i, 0 < ν i) (c : Fin d) {θ : ℝ} (hθ : θ ≠ 0)
+    (s : ℝ) (r : Fin n → ℝ) :
+    HasDerivAt
+      (fun t => -s * (r ⬝ᵥ ((radialNoisy k alpha (Function.update l c t) x ν)⁻¹ *ᵥ r)
+        + Real.log (radialNoisy k alpha (Function.update l c t) x ν).det))
+      (-s * (-(((radialNoisy k alpha (Function.update l c θ) x ν)⁻¹ *ᵥ r) ⬝ᵥ
+            (radialHparamGrad k alpha (Function.update l c θ) x (c.val + 1) *ᵥ
+              ((radialNoisy k alpha (Function.update l c θ) x ν)⁻¹ *ᵥ r)))
+        + Matrix.trace ((radialNoisy k alpha (Function.update l c θ) x ν)⁻¹ *
+            radialHparamGrad k alpha (Function.update l c θ) x (c.val + 1)))) θ :=
+  have hpd := kernel_matrix_posDef k ha (Function.update l c θ) x hν
+  loglik_grad_matrix (K := fun t => radialNoisy k alpha (Function.update l c t) x ν)
+    (kernel_matrix_grad_length k hk alpha l x ν c hθ) hpd.det_pos (isSymm_of_posDef hpd) s r
+
+/-- **loglik_grad_radial_length, polynomial (GLS) mean**, `P` of full column rank -/
+theorem loglik_grad_radial_length_poly_mean (k : Kind) (hk : differentiable k = true) {n d p : ℕ} {alpha : ℝ}
+    (ha : 0 ≤ alpha) (l : Fin d → ℝ) (x : Fin n → Fin d → ℝ) {ν : Fin n → ℝ} (hν : ∀ i, 0 < ν i) (c : Fin d)
+    {θ : ℝ} (hθ : θ ≠ 0) (P : Matrix (Fin n) (Fin p) ℝ) (hP : Function.Injective P.mulVec) (s : ℝ)
+    (y : Fin n → ℝ) :
+    HasDerivAt
+      (fun t => -s * (glsResidual P (radialNoisy k alpha (Function.update l c t) x ν) y ⬝ᵥ
+          ((radialNoisy k alpha (Function.update l c t) x ν)⁻¹ *ᵥ
+            glsResidual P (radialNoisy k alpha (Function.update l c t) x ν) y)
+        + Real.log (radialNoisy k alpha (Function.update l c t) x ν).det))
+      (-s * (-(((radialNoisy k alpha (Function.update l c θ) x ν)⁻¹ *ᵥ
+              glsResidual P (radialNoisy k alpha (Function.update l c θ) x ν) y) ⬝ᵥ
+            (radialHparamGrad k alpha (Function.update l c θ) x (c.val + 1) *ᵥ
+              ((radialNoisy k alpha (Function.update l c θ) x ν)⁻¹ *ᵥ
+                glsResidual P (radialNoisy k alpha (Function.update l c θ) x ν) y)))
+        + Matrix.trace ((radialNoisy k alpha (Function.update l c θ) x ν)⁻¹ *
+            radialHparamGrad k alpha (Function.update l c θ) x (c.val + 1)))) θ :=
+  have h := kernel_matrix_hyp k ha (Function.update l c θ) x hν P hP
+  loglik_grad_poly_mean_matrix (K := fun t => radialNoisy k alpha (Function.update l c t) x ν)
+    (kernel_matrix_grad_length k hk alpha l x ν c hθ) h.1 h.2.1 P h.2.2 s y
+
+/-- … read at the current hyperparameters: at `θ = l c` the family passes through `radialNoisy k alpha l x ν` itself
+    and `K'` is slice `c + 1` of the tensor at `l` (`Function.update l c (l c) = l`). -/
+theorem loglik_grad_radial_length_at (k : Kind) (hk : differentiable k = true) {n d p : ℕ} {alpha : ℝ}
+    (ha : 0 ≤ alpha) (l : Fin d → ℝ) (x : Fin n → Fin d → ℝ) {ν : Fin n → ℝ} (hν : ∀ i, 0 < ν i) (c : Fin d)
+    (hl : 0 < l c) (P : Matrix (Fin n) (Fin p) ℝ) (hP : Function.Injective P.mulVec) (s : ℝ) (y : Fin n → ℝ) :
+    HasDerivAt
+      (fun t => -s * (glsResidual P (radialNoisy k alpha (Function.update l c t) x ν) y ⬝ᵥ
+          ((radialNoisy k alpha (Function.update l c t) x ν)⁻¹ *ᵥ
+            glsResidual P (radialNoisy k alpha (Function.update l c t) x ν) y)
+        + Real.log (radialNoisy k alpha (Function.update l c t) x ν).det))
+      (-s * (-(((radialNoisy k alpha l x ν)⁻¹ *ᵥ glsResidual P (radialNoisy k alpha l x ν) y) ⬝ᵥ
+            (radialHparamGrad k alpha l x (c.val + 1) *ᵥ
+              ((radialNoisy k alpha l x ν)⁻¹ *ᵥ glsResidual P (radialNoisy k alpha l x ν) y)))
+        + Matrix.trace ((radialNoisy k alpha l x ν)⁻¹ * radialHparamGrad k alpha l x (c.val + 1)))) (l c) := by
+  have h := loglik_grad_radial_length_poly_mean k hk ha l x hν c hl.ne' P hP s y
+  rwa [Function.update_eq_self] at h
+
+/-- **loglik_grad_radial_nugget, zero mean**: a constant `t` added to the whole noise diagonal (`K + diag ν + t·I`,
+    the auto-noise / nugget direction), `K' = I`; at every θ with `ν i + θ > 0`. -/
+theorem loglik_grad_radial_nugget (k : Kind) {n d : ℕ} {alpha : ℝ} (ha : 0 ≤ alpha) (l : Fin d → ℝ)
+    (x : Fin n → Fin d → ℝ) (ν : Fin n → ℝ) {θ : ℝ} (hν : ∀ i, 0 < ν i + θ) (s : ℝ) (r : Fin n → ℝ) :
+    HasDerivAt
+      (fun t => -s * (r ⬝ᵥ ((radialNoisy k alpha l x (fun a => ν a + t))⁻¹ *ᵥ r)
+        + Real.log (radialNoisy k alpha l x (fun a => ν a + t)).det))
+      (-s * (-(((radialNoisy k alpha l x (fun a => ν a + θ))⁻¹ *ᵥ r) ⬝ᵥ
+            ((1 : Matrix (Fin n) (Fin n) ℝ) *ᵥ ((radialNoisy k alpha l x (fun a => ν a + θ))⁻¹ *ᵥ r)))
+        + Matrix.trace ((radialNoisy k alpha l x (fun a => ν a + θ))⁻¹ * (1 : Matrix (Fin n) (Fin n) ℝ)))) θ :=
+  have hpd := kernel_matrix_posDef k ha l x (ν := fun a => ν a + θ) hν
+  loglik_grad_matrix (K := fun t => radialNoisy k alpha l x (fun a => ν a + t))
+    (kernel_matrix_grad_nugget k alpha l x ν θ).2 hpd.det_pos (isSymm_of_posDef hpd) s r
+
+/-- **loglik_grad_radial_nugget, polynomial (GLS) mean** -/
+theorem loglik_grad_radial_nugget_poly_mean (k : Kind) {n d p : ℕ} {alpha : ℝ} (ha : 0 ≤ alpha) (l : Fin d → ℝ)
+    (x : Fin n → Fin d → ℝ) (ν : Fin n → ℝ) {θ : ℝ} (hν : ∀ i, 0 < ν i + θ) (P : Matrix (Fin n) (Fin p) ℝ)
+    (hP : Function.Injective P.mulVec) (s : ℝ) (y : Fin n → ℝ) :
+    HasDerivAt
+      (fun t => -s * (glsResidual P (radialNoisy k alpha l x (fun a => ν a + t)) y ⬝ᵥ
+          ((radialNoisy k alpha l x (fun a => ν a + t))⁻¹ *ᵥ
+            glsResidual P (radialNoisy k alpha l x (fun a => ν a + t)) y)
+        + Real.log (radialNoisy k alpha l x (fun a => ν a + t)).det))
+      (-s * (-(((radialNoisy k alpha l x (fun a => ν a + θ))⁻¹ *ᵥ
+              glsResidual P (radialNoisy k alpha l x (fun a => ν a + θ)) y) ⬝ᵥ
+            ((1 : Matrix (Fin n) (Fin n) ℝ) *ᵥ ((radialNoisy k alpha l x (fun a => ν a + θ))⁻¹ *ᵥ
+              glsResidual P (radialNoisy k alpha l x (fun a => ν a + θ)) y)))
+        + Matrix.trace ((radialNoisy k alpha l x (fun a => ν a + θ))⁻¹ * (1 : Matrix (Fin n) (Fin n) ℝ)))) θ :=
+  have h := kernel_matrix_hyp k ha l x (ν := fun a => ν a + θ) hν P hP
+  loglik_grad_poly_mean_matrix (K := fun t => radialNoisy k alpha l x (fun a => ν a + t))
+    (kernel_matrix_grad_nugget k alpha l x ν θ).2 h.1 h.2.1 P h.2.2 s y
+
+end Compose
 
 /-- one observation, in scalars (the statement that was proved before the general one) -/
 theorem loglik_grad_partial {K : ℝ → ℝ} {K' θ : ℝ} (s y : ℝ) (hK : HasDerivAt K K' θ) (hpos : 0 < K θ) :
